@@ -16,7 +16,7 @@ pub const FLOORS: &[&str] = &[
     "reset_after_eval_store", "reset_after_program_store", "reset_twice", "reset_then_full_run",
     "store_into_code", "store_into_stack_area", "memory_dirty_before_reset", "output:minimal", "output:decorated",
     "assembly_after_store_into_code", "resumed_under_debugger_after_reset", "reset_while_paused_on_breakpoint",
-    "resume_after_reset_compared_with_fresh_session", "reset_after_unfinished_step_over_call", "halt_planted_before_reset", "reset_after_eval_jump", "reset_while_parked_on_a_halt_planted_at_the_origin", "planted_halt_at_the_origin_reached_by_running", "words_exchanged_before_reset", "reset_after_a_long_run", "image_ends_at_fffe",
+    "resume_after_reset_compared_with_fresh_session", "reset_after_unfinished_step_over_call", "halt_planted_before_reset", "reset_after_eval_jump", "reset_while_parked_on_a_halt_planted_at_the_origin", "planted_halt_at_the_origin_reached_by_running", "words_exchanged_before_reset", "reset_after_a_long_run", "image_ends_at_fffe", "reset_while_the_program_has_words_on_the_stack",
 ];
 
 const FUEL: u64 = 15_000;
@@ -159,6 +159,29 @@ fn one_case(seed: u64, i: u64) -> CaseOut {
             st(None, Stmt::Br(1, Target::Label("lp".into()))),
             st(None, Stmt::Alias(0x25)),
             st(Some("n"), Stmt::Fill(20_000 + (i % 7) as i32 * 3_000)),
+            Item::End,
+        ]);
+        built.program = Program { items };
+        built.input.clear();
+        built.features.clear();
+    }
+    // a program that takes more from the stack than it put there (the word behind the stack is read: defined,
+    // if unusual), reset while something it pushed is still on the stack: the second run finds the stack
+    // it found the first time
+    let unbalanced_stack = stack && !long_history && i % 17 == 6;
+    if unbalanced_stack {
+        let st = |label: Option<&str>, stmt: Stmt| Item::Stmt { label: label.map(|l| l.to_string()), stmt };
+        let mut items: Vec<Item> = match o.origin { Some(v) => vec![Item::Orig(v)], None => vec![] };
+        items.extend(vec![
+            st(None, Stmt::AndI(0, 0, 0)),
+            st(None, Stmt::AddI(0, 0, 5)),
+            st(None, Stmt::Push(0)),
+            st(None, Stmt::Push(0)),
+            st(None, Stmt::Pop(1)),
+            st(None, Stmt::Pop(2)),
+            st(None, Stmt::Pop(3)),
+            st(None, Stmt::AddR(4, 3, 2)),
+            st(None, Stmt::Alias(0x25)),
             Item::End,
         ]);
         built.program = Program { items };
@@ -354,6 +377,25 @@ fn one_case(seed: u64, i: u64) -> CaseOut {
         tags.clear();
         tags.push("reset_after_a_long_run");
     }
+    if unbalanced_stack {
+        lines.clear();
+        bp_lines.clear();
+        tags.clear();
+        match rng.below(4) {
+            0 => lines.push("si 3".into()),
+            1 => lines.push("si 4".into()),
+            2 => {
+                lines.push("si 2".into());
+                lines.push("eval push r0".into());
+            }
+            _ => {
+                lines.push("eval push r5".into());
+                lines.push("eval push r5".into());
+                lines.push("si 5".into());
+            }
+        }
+        tags.push("reset_while_the_program_has_words_on_the_stack");
+    }
     let n_resets = if long_history { 1 } else { 1 + rng.below(3) };
     let mut reset_lines = Vec::new();
     for k in 0..n_resets {
@@ -365,7 +407,7 @@ fn one_case(seed: u64, i: u64) -> CaseOut {
             lines.push("si 2".into());
         }
     }
-    let full_run = rng.chance(2, 3) || halt_at_origin_history || long_history;
+    let full_run = rng.chance(2, 3) || halt_at_origin_history || long_history || unbalanced_stack;
     let mut resume_cmd: Option<String> = None;
     if full_run {
         // resume in different ways before detaching: with the debugger still attached for a while
